@@ -104,7 +104,7 @@ func C14(r *drv.Run) {
 	if !quick(r) {
 		n, ntext = 150000, 16
 	}
-	r.Rule = "^ and $ as operands of an alternation (first, last, in the middle; in plain, non-capturing and named groups; thirteen regexes) on every text over {a, b, comma, newline} up to length 4; group names over every ASCII letter and digit (g<c>, <c>g, <c> alone, a few mixed ones) in a named group and in a named group with its named back-reference; every escape and class of the subset (\\s \\S \\d \\D . [^a] [a-c] [^a-c], alone, repeated, and between two letters) on every ASCII byte of the domain (0x00..0x7F without \\r and \\f) alone, between letters, doubled, and in runs of 14; exact counts 1 001 .. 100 001 (thorough .. 200 001; beyond what Go accepts, expected from the text alone: x a{n} y matches x a^n y and nothing shorter or longer); brace quantifiers with bounds 99..600 on both sides of 100, 128, 256, 512 ({n}, {0,n}, {n,}, {n-1,n+1}, lazy) on texts long enough to tell the bound from the bound modulo a power of two; exhaustive small regexes (every sequence of up to three of eight atoms on every text over {a,b,newline,1} up to length 4; quick: all of length <= 2 and half of length 3) + generated regexes of the stated subset (literals, ., bracket classes with ranges and negation (also opened or closed by a literal hyphen, or opened by a range that starts at the hyphen), \\d \\D \\s \\S, plain/non-capturing/named groups, * + ? {m} {m,} {m,n} and lazy forms, alternations whose operands are single quantified atoms or groups, ^ $ at the ends, numbered and named back-references to closed groups, one case in eight with 9..12 groups and two-digit back-references; sometimes an unrelated stored pattern of the same name as a named group earlier in the source; repeated bodies non-nullable), <= ~12 nodes; plus ambiguous splits around 12 separators that imitate printed bindings, decided by a back-reference; texts <= 14 ASCII bytes without \\r and \\f derived from the regex; a third of the cases compiled right after another source in the same process (one that fails after opening regex groups, or one with several groups). Oracle 1: Go regexp given the SAME source, evaluated position by position (spans and group texts) when the regex has no back-reference. Oracle 2: reference backtracker on the harness's own translation (always; the only oracle for back-references). Non-trivial = >= 1 match expected AND VM backtracked; distinct by (regex, text)."
+	r.Rule = "ten regexes that begin with a capturing group whose body begins with a starred atom (.* .*? a* [ab]*) and that refer back to it, on every text over {a, b, -, newline} up to length 5; ^ and $ as operands of an alternation (first, last, in the middle; in plain, non-capturing and named groups; thirteen regexes) on every text over {a, b, comma, newline} up to length 4; group names over every ASCII letter and digit (g<c>, <c>g, <c> alone, a few mixed ones) in a named group and in a named group with its named back-reference; every escape and class of the subset (\\s \\S \\d \\D . [^a] [a-c] [^a-c], alone, repeated, and between two letters) on every ASCII byte of the domain (0x00..0x7F without \\r and \\f) alone, between letters, doubled, and in runs of 14; exact counts 1 001 .. 100 001 (thorough .. 200 001; beyond what Go accepts, expected from the text alone: x a{n} y matches x a^n y and nothing shorter or longer); brace quantifiers with bounds 99..600 on both sides of 100, 128, 256, 512 ({n}, {0,n}, {n,}, {n-1,n+1}, lazy) on texts long enough to tell the bound from the bound modulo a power of two; exhaustive small regexes (every sequence of up to three of eight atoms on every text over {a,b,newline,1} up to length 4; quick: all of length <= 2 and half of length 3) + generated regexes of the stated subset (literals, ., bracket classes with ranges and negation (also opened or closed by a literal hyphen, or opened by a range that starts at the hyphen), \\d \\D \\s \\S, plain/non-capturing/named groups, * + ? {m} {m,} {m,n} and lazy forms, alternations whose operands are single quantified atoms or groups, ^ $ at the ends, numbered and named back-references to closed groups, one case in eight with 9..12 groups and two-digit back-references; sometimes an unrelated stored pattern of the same name as a named group earlier in the source; repeated bodies non-nullable), <= ~12 nodes; plus ambiguous splits around 12 separators that imitate printed bindings, decided by a back-reference; texts <= 14 ASCII bytes without \\r and \\f derived from the regex; a third of the cases compiled right after another source in the same process (one that fails after opening regex groups, or one with several groups). Oracle 1: Go regexp given the SAME source, evaluated position by position (spans and group texts) when the regex has no back-reference. Oracle 2: reference backtracker on the harness's own translation (always; the only oracle for back-references). Non-trivial = >= 1 match expected AND VM backtracked; distinct by (regex, text)."
 	r.Assumptions = []string{
 		"Go regexp (leftmost-first) is the conventional backtracking engine on the back-reference-free subset; for back-references the harness reference matcher is",
 		"when a regex mixes named and numbered capturing groups only named back-references are generated (vore numbers only the unnamed groups, a conventional engine numbers all of them); group texts are compared by position of the opening parenthesis",
@@ -239,6 +239,7 @@ func C14(r *drv.Run) {
 	c14EveryByte(r)
 	c14GroupNames(r)
 	c14AnchorOperands(r)
+	c14LeadingStar(r)
 	c14Bounds(r)
 	c14BigCounts(r)
 	if r.NViolations() == 0 {
